@@ -129,6 +129,21 @@ pub fn run(a: &Args, rep: &mut Report) {
             }
         }
     }
+    // IPv6 socket addresses with non-zero flow-info / scope-id (outside the round-trip property,
+    // inside this one: len() counts what the encoder writes for *every* value)
+    for i in 0..n / 16 {
+        if !a.mine(i) {
+            continue;
+        }
+        let mut rng = Rng::derive("c07/sockaddr6", a.seed, 0, i);
+        let ip = <std::net::Ipv6Addr as Subject>::gen(&mut rng);
+        let flow = *rng.pick(&[0u32, 1, 23, 24, 255, 256, 65536, u32::MAX]);
+        let scope = *rng.pick(&[0u32, 1, 23, 24, 255, 256, 65536, u32::MAX]);
+        let sa = std::net::SocketAddrV6::new(ip, rng.next_u32() as u16, flow, scope);
+        check_len::<std::net::SocketAddrV6>("SocketAddrV6", "builtin|SocketAddrV6(flow,scope)", &sa, &format!("{:?} flow {} scope {}", sa, flow, scope), rep, &[]);
+        let any = std::net::SocketAddr::V6(sa);
+        check_len::<std::net::SocketAddr>("SocketAddr", "builtin|SocketAddr::V6(flow,scope)", &any, &format!("{:?}", any), rep, &[]);
+    }
     // slices and references
     for i in 0..n / 4 {
         if !a.mine(i) {
